@@ -127,13 +127,13 @@ let env_of files stddir =
 
 let parse_case id main files stddir =
   match FrontModel.parse_main (env_of files stddir) (bytes_of_hex main) with
-  | FrontModel.POk (body, _, _) -> Printf.printf "parse %s ok %s\n" id (d_stmts body)
+  | FrontModel.POk (body, _, _, _) -> Printf.printf "parse %s ok %s\n" id (d_stmts body)
   | FrontModel.PErr -> Printf.printf "parse %s err\n" id
   | FrontModel.PFuel -> Printf.printf "parse %s fuel\n" id
 
 let emit_case id main files stddir =
   match FrontModel.parse_main (env_of files stddir) (bytes_of_hex main) with
-  | FrontModel.POk (body, _, _) ->
+  | FrontModel.POk (body, _, _, _) ->
       let (b, bsyn) = (match BashConv.emit_bash body with
                | Transpile.TOk (script, st) ->
                    ("ok:" ^ hex_of_bytes script,
@@ -156,7 +156,7 @@ let z_to_string z = str_of_bytes (Bytestr.dec_Z z)
 let run_fuel = nat_of_int 20000
 let run_case id main files stddir =
   match FrontModel.parse_main (env_of files stddir) (bytes_of_hex main) with
-  | FrontModel.POk (body, _, _) ->
+  | FrontModel.POk (body, _, _, _) ->
       (match Src.run run_fuel [] body with
        | Src.Ran (out, status, _) -> Printf.printf "run %s transpile=ok out=%s status=%s stderr=\n" id (hex_of_bytes out) (z_to_string status)
        | Src.RunUndef -> Printf.printf "run %s undefined\n" id
